@@ -138,7 +138,7 @@ def run_model(lines, chunk=None):
 def _run_inv_chunk(lines):
     p = subprocess.run([DRIVER, "inv"], input=("\n".join(lines) + "\n").encode(),
                        stdout=subprocess.PIPE, stderr=subprocess.PIPE, timeout=1800)
-    out = {"histories": 0, "configs": 0, "cut": 0, "violations": 0, "bad": [], "cov": {}}
+    out = {"histories": 0, "configs": 0, "cut": 0, "violations": 0, "bad": [], "cov": {}, "cut_ids": {}}
     for ln in p.stdout.decode().split("\n"):
         if ln.startswith("INVSUMMARY"):
             m = dict(re.findall(r"(\w+)=(\d+)", ln))
@@ -147,6 +147,9 @@ def _run_inv_chunk(lines):
         elif ln.startswith("COV "):
             _, k, v = ln.split(" ", 2)
             out["cov"][k] = out["cov"].get(k, 0) + int(v)
+        elif ln.startswith("CUT "):
+            _, hid, idx = ln.split(" ", 2)
+            out["cut_ids"][hid] = int(idx)
         elif ln.startswith("INV "):
             out["bad"].append(ln)
     if p.returncode != 0:
@@ -159,12 +162,13 @@ def run_inv(lines):
     """step-level run of the model on (hinted) history lines: the executable mirror of the proved
     invariant on every configuration under the theorems' hypotheses, and which machine branches ran"""
     if not lines:
-        return {"histories": 0, "configs": 0, "cut": 0, "violations": 0, "bad": [], "cov": {}}
+        return {"histories": 0, "configs": 0, "cut": 0, "violations": 0, "bad": [], "cov": {}, "cut_ids": {}}
     chunk = max(50, (len(lines) + NPROC - 1) // NPROC)
     chunks = [lines[i:i + chunk] for i in range(0, len(lines), chunk)]
-    tot = {"histories": 0, "configs": 0, "cut": 0, "violations": 0, "bad": [], "cov": {}}
+    tot = {"histories": 0, "configs": 0, "cut": 0, "violations": 0, "bad": [], "cov": {}, "cut_ids": {}}
     with ThreadPoolExecutor(max_workers=NPROC) as ex:
         for r in ex.map(_run_inv_chunk, chunks):
+            tot["cut_ids"].update(r["cut_ids"])
             for k in ("histories", "configs", "cut", "violations"):
                 tot[k] += r[k]
             tot["bad"] += r["bad"][:20]
